@@ -22,8 +22,11 @@ RULE = ("case = (deck, plan): the reflective reader calls every public property 
         "(Presentation, slides, layouts, masters, shape collections, shapes of every class, placeholders and their "
         "format, text frames, paragraphs, runs, tables/rows/columns/cells, charts, plots, categories, series, images, "
         "click actions/hyperlinks, notes slide when present, core properties when present) recursively; the plan fixes "
-        "the rotation/reversal of property order per depth, the slides visited, 1-3 repetitions and 0-3 intermediate "
-        "saves. Non-trivial: deck has a chart, table, group or notes slide, or the history has an intermediate save. "
+        "the rotation/reversal of property order per depth, the slides visited, 1-3 repetitions, 0-3 intermediate "
+        "saves and an optional save before the first read. Decks: corpus, a generated deck with every shape kind and "
+        "partial-xfrm placeholders, and variants of four corpus decks whose slide parts are rotated / numbered with "
+        "gaps. Non-trivial: deck has a chart, table, group or notes slide, or renamed slide parts, or the history has "
+        "an intermediate or initial save. "
         "Distinct by hash of (deck, plan).")
 ASSUMPTIONS = [
     "accessors documented as creating content are not called: Slide.notes_slide without an existing notes slide, "
@@ -300,7 +303,20 @@ def deck_bytes(deck):
                                  ["add_movie", 2, 1, 0, 0, 914400, 914400], ["add_ole", 2, 0, 0, False],
                                  ["add_freeform", 2, 0, [[0, 0], [100, 50], [30, 80]], True, 100.0],
                                  ["notes", 1, 12], ["target_slide", 1, 2, 0], ["ph_insert", 2, 0, 0]])
+        # placeholders with a partial a:xfrm (moved but not resized / resized but not moved): their
+        # missing half is inherited, so geometry getters must not materialise it
+        phs = [s for s in prs.slides[0].placeholders]
+        if phs:
+            phs[0].left = 123456
+        if len(phs) > 1:
+            phs[1].width = 3456789
         data = it.save_bytes()
+    elif "|" in deck:
+        # variant of a corpus deck whose slide parts are renamed consistently (out of presentation order / gaps)
+        from checks.c02 import renamed
+        base, how = deck.split("|")
+        data = open(os.path.join(REPO, base), "rb").read()
+        data = renamed(data, how) or data
     else:
         data = open(os.path.join(REPO, deck), "rb").read()
     _deck_cache[deck] = data
@@ -378,6 +394,12 @@ def _run_case(case, rec=None):
         prs = Presentation(io.BytesIO(data))
     saves = sorted(set(plan.get("saves") or []))
     reps = plan.get("reps", 1)
+    if plan.get("save_first"):
+        # "saving it any number of times": a save before anything was read
+        b0 = io.BytesIO()
+        with sut("C12:save"):
+            prs.save(b0)
+        compare_saves(ref, O.Pkg.read(b0.getvalue()), "save before reading")
     calls = 0
     classes = set()
     inter = 0
@@ -425,7 +447,7 @@ def _run_case(case, rec=None):
         rich = any(x in names for x in ("/charts/", "/notesSlides/")) or b"<a:tbl" in b"".join(
             v for k, v in ref.members.items() if k.startswith("/ppt/slides/slide")) or b"<p:grpSp>" in b"".join(
             v for k, v in ref.members.items() if k.startswith("/ppt/slides/slide"))
-        rec.note(case, rich or inter > 0, classes=["deck:" + ("generated" if deck == "generated" else "corpus"),
+        rec.note(case, rich or inter > 0 or "|" in deck or bool(plan.get("save_first")), classes=["deck:" + ("generated" if deck == "generated" else "renamed-slides" if "|" in deck else "corpus"),
                                                    "intermediate-saves:%d" % inter, "reps:%d" % reps])
         rec.extra["property_reads"] = rec.extra.get("property_reads", 0) + calls
         rec.extra.setdefault("classes_traversed", [])
@@ -442,6 +464,7 @@ def plan_strategy():
         "reps": st.integers(1, 3),
         "saves": st.lists(st.integers(0, 2), max_size=3),
         "budget": st.sampled_from([1500, 6000, 20000]),
+        "save_first": st.booleans(),
     })
 
 
@@ -449,6 +472,10 @@ def jobs(tier):
     decks = corpus_decks() + ["generated"]
     if tier != "thorough":
         decks = decks[::2] + ["generated"]
+    # slide parts out of presentation order / numbered with gaps (the slide collection renames them on access)
+    multi = ["features/steps/test_files/sld-slides.pptx", "features/steps/test_files/shp-shapes.pptx",
+             "features/steps/test_files/cht-charts.pptx", "tests/test_files/test.pptx"]
+    decks += ["%s|%s" % (d, how) for d in multi for how in ("rotate", "gap")]
     n = 40 if tier == "thorough" else 6
     return [{"decks": decks[i::16], "n": n} for i in range(16)]
 
